@@ -415,6 +415,7 @@ type Endpoint struct {
 	rd     deadline
 	// WriteErr, if set, is returned by WriteTo (transport refusing writes).
 	WriteErr error
+	detached bool
 }
 
 func (e *Endpoint) deliver(d dgram) {
@@ -468,6 +469,9 @@ func (e *Endpoint) WriteTo(p []byte, addr net.Addr) (int, error) {
 	if e.WriteErr != nil {
 		return 0, e.WriteErr
 	}
+	if e.isDetached() {
+		return len(p), nil // swallowed: the endpoint was spliced out of the network
+	}
 	if addr == nil {
 		return 0, errors.New("vnet: nil destination")
 	}
@@ -515,4 +519,19 @@ func (n *Net) Heal() {
 	n.FaultFn = nil
 	n.mu.Unlock()
 	n.FlushHeld()
+}
+
+// Detach splices the endpoint out of the network: what it sends from now on goes nowhere and
+// is not recorded.
+func (e *Endpoint) Detach() {
+	e.net.mu.Lock()
+	e.detached = true
+	e.net.mu.Unlock()
+}
+
+func (e *Endpoint) isDetached() bool {
+	e.net.mu.Lock()
+	defer e.net.mu.Unlock()
+
+	return e.detached
 }
